@@ -8,6 +8,7 @@ position); edges mean "reachable without passing another event". Events matched 
 additive allow-list (observation-only code a feature may add) are erased before comparison."""
 from cfg import callee, is_panic_call, const_int
 from rules.common import cfg_of, tracer_of, fn_of
+import anchors
 
 INTERESTING_ADTS = ("actor_result::ActorResult", "error::Error", "MailboxMessage", "ControlSignal", "actor_result::FailurePhase",
                     "dead_letter::DeadLetterReason")
@@ -55,7 +56,7 @@ class Allow:
             return "metrics (observation)"
         if d in ("actor_ref::ActorRef::<T>::identity", "actor_ref::ActorWeak::<T>::identity", "Identity::name", "Identity::new"):
             return "pure getter"
-        if d in ("wait_for_graph", "has_path", "format_cycle_path") or nm in ("try_with", "scope") and "LocalKey" in d:
+        if d in anchors.wait_map_fns(self.f) or nm in ("try_with", "scope") and "LocalKey" in d:
             return "wait-for bookkeeping / task-local scope"
         if d.startswith("std::collections::HashMap") or (d.startswith("std::sync::Mutex") and nm == "lock") or d.startswith("std::sync::OnceLock") and nm in ("get_or_init",):
             return "wait-for bookkeeping"
@@ -69,7 +70,7 @@ class Allow:
                 return "ActorRef clone feeding only the metrics guard"
             if ta and (ta[0].k in ("uint", "int", "bool") or ta[0].is_adt("Identity")):
                 return "copy"
-        if d.startswith("std::sync::atomic::Atomic") and body.defn in ("dead_letter::record",):
+        if d.startswith("std::sync::atomic::Atomic") and body.defn == anchors.record_def(self.f):
             return "dead-letter counter (test-utils)"
         return None
 
